@@ -61,8 +61,25 @@ def search(ctx):
                         bad += 1
                         ctx.fail(f"{type(s).__name__}.{k}", f"{type(s).__name__} ({name}, {conv} convention): {k} off by {e:.3e} at pos={q.tolist()} mom={p.tolist()}",
                                  {"system": name, "class": type(s).__name__, "check": k, "error": float(e), "conv": conv, "pos": q.tolist(), "mom": p.tolist()})
+                # the formulas hold at EVERY position and momentum: also on a state object that already evaluated everything and then had only its
+                # position, or only its momentum, re-assigned
+                for what in ("pos", "mom"):
+                    q2, p2 = (zoo.random_state(name, s, rng).pos.copy(), p) if what == "pos" else (st.pos.copy(), rng.standard_normal(p.shape))
+                    setattr(st, what, (q2 if what == "pos" else p2).copy())
+                    fresh = ChainState(pos=q2.copy(), mom=p2.copy(), dir=1)
+                    errs = {m: float(np.max(np.abs(np.asarray(getattr(s, m)(st)) - np.asarray(getattr(s, m)(fresh)))))
+                            for m in ("h", "h1", "h2", "dh1_dpos", "dh2_dpos", "dh2_dmom", "dh_dpos", "dh_dmom")}
+                    errs["h=formula"] = abs(float(s.h(st)) - formula_h(name, s, st))
+                    ctx.count("search:after_reassignment")
+                    for k, e in errs.items():
+                        if not e <= 1e-10 * (1 + abs(float(s.h(fresh)))):
+                            bad += 1
+                            ctx.fail(f"{type(s).__name__}.{k}:after_{what}_assignment", f"{type(s).__name__} ({name}): after evaluating everything and re-assigning only {what}, {k} differs from "
+                                     f"its value on a fresh state at the same position and momentum by {e:.3e}", {"system": name, "class": type(s).__name__, "check": k, "assigned": what,
+                                                                                                                    "error": float(e), "pos": q2.tolist(), "mom": p2.tolist()})
+                            break
     ctx.oblige("search: central finite differences of h, h1, h2 vs every derivative method, h = h1 + h2 = documented formula (dense NumPy), "
-               "all system classes, both return conventions", bad == 0, f"{bad} failures")
+               "all system classes, both return conventions; the same after re-assigning only the position / only the momentum of a used state", bad == 0, f"{bad} failures")
 
 
 def run(ctx):
